@@ -156,6 +156,24 @@ func (e *Engine) specCall(env *SpecEnv, x *SExpr) Value {
 			flat = append(flat, e.flat(e.evalSpec(env, a))...)
 		}
 		return e.eventTerm(e.methodKey(mr), flat)
+	case "pcall":
+		if len(args) < 2 {
+			sfail("pcall(Iface.Method, recv, args...)")
+		}
+		mr, ok := e.evalSpec(env, args[0]).(MethodRef)
+		if !ok {
+			sfail("pcall: first argument must be Interface.Method")
+		}
+		recv, ok := e.evalSpec(env, args[1]).(IfaceV)
+		if !ok {
+			sfail("pcall: receiver must be an interface value")
+		}
+		var av []Value
+		for _, a := range args[2:] {
+			av = append(av, e.evalSpec(env, a))
+		}
+		mf := e.methodFunc(mr)
+		return e.pureMethodResult(env.st, mf, recv, av)
 	case "evn":
 		// evn("name", args...): engine-defined events (chan.close, go:..., conn.Write)
 		if len(args) < 1 || args[0].Op != "str" {
@@ -422,6 +440,17 @@ func (e *Engine) flat(v Value) []Term {
 		return out
 	}
 	panic(unsupported(fmt.Sprintf("flatten %T", v)))
+}
+
+func (e *Engine) methodFunc(mr MethodRef) *types.Func {
+	ms := types.NewMethodSet(mr.T)
+	for i := 0; i < ms.Len(); i++ {
+		if ms.At(i).Obj().Name() == mr.Name {
+			return ms.At(i).Obj().(*types.Func)
+		}
+	}
+	sfail("type %s has no method %s", mr.T, mr.Name)
+	return nil
 }
 
 func (e *Engine) methodKey(mr MethodRef) string {
